@@ -507,4 +507,169 @@ theorem minimal_push_unique (d : Bytes) (op op' : Nat) (hl : d.length ≤ 65535)
         · omega
 
 
+/-! ### script numbers -/
+
+
+theorem leNat_append (a b : Bytes) : leNat (a ++ b) = leNat a + 256 ^ a.length * leNat b := by
+  induction a with
+  | nil => simp [leNat]
+  | cons x xs ih =>
+    simp only [List.cons_append, leNat, ih, List.length_cons, Nat.pow_succ]
+    rw [Nat.mul_add, Nat.mul_comm (256 ^ xs.length) 256, Nat.mul_assoc, Nat.add_assoc]
+
+theorem natLEBytes_zero (fuel : Nat) : natLEBytes fuel 0 = [] := by cases fuel <;> simp [natLEBytes]
+
+theorem toNat_ofNat_lt (k : Nat) (h : k < 256) : (UInt8.ofNat k).toNat = k := by
+  simp [UInt8.toNat_ofNat']; omega
+
+theorem natLEBytes_leNat : ∀ fuel m, m < 256 ^ fuel → leNat (natLEBytes fuel m) = m := by
+  intro fuel
+  induction fuel with
+  | zero => intro m h; simp at h; subst h; simp [natLEBytes, leNat]
+  | succ f ih =>
+    intro m h
+    unfold natLEBytes
+    split
+    · rename_i h0; simp at h0; subst h0; simp [leNat]
+    · have hd : m / 256 < 256 ^ f := by
+        rw [Nat.pow_succ] at h
+        exact Nat.div_lt_of_lt_mul (by rw [Nat.mul_comm]; exact h)
+      simp only [leNat, ih _ hd, toNat_ofNat_lt _ (Nat.mod_lt m (by decide))]
+      omega
+
+/-- the encoding of a positive magnitude ends in a non-zero byte -/
+theorem natLEBytes_snoc : ∀ fuel m, 0 < m → m < 256 ^ fuel →
+    ∃ init last, natLEBytes fuel m = init ++ [last] ∧ last.toNat ≠ 0 := by
+  intro fuel
+  induction fuel with
+  | zero => intro m h0 h; simp at h; omega
+  | succ f ih =>
+    intro m h0 h
+    have hd : m / 256 < 256 ^ f := by
+      rw [Nat.pow_succ] at h
+      exact Nat.div_lt_of_lt_mul (by rw [Nat.mul_comm]; exact h)
+    have hne : (m == 0) = false := by simp; omega
+    by_cases hq : m / 256 = 0
+    · refine ⟨[], UInt8.ofNat (m % 256), ?_, ?_⟩
+      · simp [natLEBytes, hne, hq, natLEBytes_zero]
+      · rw [toNat_ofNat_lt _ (Nat.mod_lt m (by decide))]
+        have : m < 256 := by
+          rcases Nat.lt_or_ge m 256 with h' | h'
+          · exact h'
+          · have := Nat.div_pos h' (by decide : 0 < 256); omega
+        omega
+    · obtain ⟨init, last, e, hl⟩ := ih (m / 256) (by omega) hd
+      refine ⟨UInt8.ofNat (m % 256) :: init, last, ?_, hl⟩
+      simp [natLEBytes, hne, e]
+
+
+theorem numValue_snoc (init : Bytes) (last : UInt8) :
+    numValue (init ++ [last]) =
+      if last.toNat ≥ 0x80 then
+        -(((leNat init + 256 ^ init.length * last.toNat : Nat) : Int) - (0x80 : Int) * 256 ^ init.length)
+      else ((leNat init + 256 ^ init.length * last.toNat : Nat) : Int) := by
+  unfold numValue
+  rw [List.getLast?_concat]
+  simp only [leNat_append, List.length_append, List.length_singleton, Nat.add_sub_cancel, leNat, Nat.mul_zero,
+    Nat.add_zero]
+
+theorem isMinimalNum_snoc (init : Bytes) (last : UInt8) (h0 : last.toNat ≠ 0) (h80 : last.toNat ≠ 0x80) :
+    isMinimalNum (init ++ [last]) = true := by
+  unfold isMinimalNum
+  rw [List.reverse_concat]
+  have e0 : (last == 0x00) = false := by
+    apply Bool.eq_false_iff.mpr; intro h; simp at h; subst h; exact h0 rfl
+  have e1 : (last == 0x80) = false := by
+    apply Bool.eq_false_iff.mpr; intro h; simp at h; subst h; exact h80 rfl
+  simp only [e0, e1, Bool.or_false, Bool.false_eq_true, if_false]
+
+theorem isMinimalNum_snoc2 (init : Bytes) (prev last : UInt8) (hp : prev.toNat ≥ 0x80) :
+    isMinimalNum (init ++ [prev] ++ [last]) = true := by
+  unfold isMinimalNum
+  rw [List.reverse_concat, List.reverse_concat]
+  simp only []
+  split
+  · simp [hp]
+  · rfl
+
+set_option maxRecDepth 10000 in
+/-- `encodeNum` then `numValue` is the identity, and the encoding is minimal, for every 64-bit magnitude -/
+theorem scriptnum_roundtrip (n : Int) (hn : n.natAbs < 2 ^ 63) :
+    numValue (encodeNum n) = n ∧ isMinimalNum (encodeNum n) = true := by
+  unfold encodeNum
+  by_cases hz : n = 0
+  · subst hz; simp [numValue, isMinimalNum]
+  · have hne : (n == 0) = false := by simpa using hz
+    simp only [hne, Bool.false_eq_true, if_false]
+    have hpos : 0 < n.natAbs := by omega
+    have hlt : n.natAbs < 256 ^ 9 := by
+      have : (2:Nat) ^ 63 < 256 ^ 9 := by decide
+      omega
+    obtain ⟨init, last, e, hl⟩ := natLEBytes_snoc 9 n.natAbs hpos hlt
+    have hval := natLEBytes_leNat 9 n.natAbs hlt
+    rw [e] at hval
+    rw [leNat_append] at hval
+    simp only [leNat, Nat.mul_zero, Nat.add_zero] at hval
+    rw [e, List.getLast?_concat]
+    simp only []
+    have hlast : last.toNat < 256 := last.toNat_lt
+    by_cases hb : last.toNat ≥ 0x80
+    · simp only [hb, if_true]
+      by_cases hneg : n < 0
+      · simp only [hneg, if_true]
+        constructor
+        · rw [numValue_snoc]
+          have h128 : (0x80 : UInt8).toNat = 128 := by decide
+          rw [h128, if_pos (by decide), leNat_append, List.length_append, List.length_singleton]
+          simp only [leNat, Nat.mul_zero, Nat.add_zero]
+          rw [Nat.pow_succ]
+          push_cast
+          have : (n.natAbs : Int) = -n := by omega
+          have hv : ((leNat init + 256 ^ init.length * last.toNat : Nat) : Int) = -n := by rw [hval]; exact this
+          push_cast at hv
+          omega
+        · exact isMinimalNum_snoc2 init last 0x80 hb
+      · simp only [hneg, if_false]
+        constructor
+        · rw [numValue_snoc]
+          have h0 : (0x00 : UInt8).toNat = 0 := by decide
+          rw [h0, if_neg (by decide), leNat_append]
+          simp only [leNat, Nat.mul_zero, Nat.add_zero]
+          have : (n.natAbs : Int) = n := by omega
+          have hv : ((leNat init + 256 ^ init.length * last.toNat : Nat) : Int) = n := by rw [hval]; exact this
+          push_cast at hv ⊢
+          omega
+        · exact isMinimalNum_snoc2 init last 0x00 hb
+    · simp only [hb, if_false]
+      by_cases hneg : n < 0
+      · simp only [hneg, if_true, List.dropLast_concat]
+        have hlt128 : last.toNat + 0x80 < 256 := by omega
+        have hto : (UInt8.ofNat (last.toNat + 0x80)).toNat = last.toNat + 0x80 := toNat_ofNat_lt _ hlt128
+        constructor
+        · rw [numValue_snoc, hto]
+          have : last.toNat + 0x80 ≥ 0x80 := by omega
+          rw [if_pos this]
+          have e : leNat init + 256 ^ init.length * (last.toNat + 0x80) = n.natAbs + 256 ^ init.length * 0x80 := by
+            rw [Nat.mul_add, ← Nat.add_assoc, hval]
+          rw [e]
+          have e2 : ((n.natAbs + 256 ^ init.length * 0x80 : Nat) : Int) =
+              (n.natAbs : Int) + (256 : Int) ^ init.length * 0x80 := by push_cast; rfl
+          rw [e2]
+          have e3 : (n.natAbs : Int) = -n := by omega
+          rw [e3]
+          generalize (256 : Int) ^ init.length = P
+          omega
+        · apply isMinimalNum_snoc
+          · rw [hto]; omega
+          · rw [hto]; omega
+      · simp only [hneg, if_false]
+        constructor
+        · rw [numValue_snoc]
+          simp only [hb, if_false]
+          have : (n.natAbs : Int) = n := by omega
+          rw [hval]; exact this
+        · apply isMinimalNum_snoc
+          · exact hl
+          · omega
+
 end BV.C06.Lemmas
